@@ -16,6 +16,7 @@ static int v_should_fail(void) {
 }
 /* call once before the code under test: exactly one request (the k-th, k symbolic in [0,max]) fails, or none (k == max) */
 static void v_arm_single_failure(long max) { v_fail_at = (long)vin_range(0, max); v_alloc_fail = 1; }
+static void v_arm_single_failure_in(long lo, long hi) { v_fail_at = (long)vin_range(lo, hi); v_alloc_fail = 1; }
 static void *v_malloc(size_t n) { if (v_should_fail()) return NULL; void *p = malloc(n); V_ASSUME(p != NULL); v_alloc_live++; return p; }
 static void *v_calloc(size_t c, size_t n) { if (v_should_fail()) return NULL; void *p = calloc(c, n); V_ASSUME(p != NULL); v_alloc_live++; return p; }
 static void *v_realloc(void *o, size_t n) { if (v_should_fail()) return NULL; void *p = realloc(o, n); V_ASSUME(p != NULL); if (!o) v_alloc_live++; return p; }
